@@ -231,7 +231,18 @@ def worker(job, acc):
         rnd = random.Random(cs)
         kw = dict(core=True, subslot=False, alap=False, alts=False, res_choices=(60, 60, 30, 15, 10), nres=(1, 3), ntasks=(2, 9),
                   tasklimits=(ci % 3 == 0), contention=(ci % 2 == 0), milestones=0.15, max_depth=3)
+        if ci % 4 == 1:
+            kw["group_p"] = 0.7
         m = gen.gen(rnd, **kw)
+        if ci % 4 == 1 and m.get("groups"):
+            # absences declared on resource groups, on SEVERAL levels at once: a member is away during every enclosing
+            # group's absence, whether or not it (or a group in between) declares absences of its own (seeded change
+            # C07-f walked up the groups only for resources that declare leaves themselves)
+            for g in m["groups"]:
+                if rnd.random() < 0.75:
+                    s0 = m["start"].replace(hour=0, minute=0) + timedelta(days=rnd.randrange(0, 9))
+                    g["leaves" if rnd.random() < 0.6 else "vacs"] = [(s0, None) if rnd.random() < 0.5 else (s0, s0 + timedelta(days=rnd.randint(1, 3)))]
+            acc.count("cases-with-group-absences")
         if ci % 6 == 0:
             # a container that is complete before the priority loop starts (all children pinned milestones), with a
             # high-priority task depending on it: the container must count as placed from the start
